@@ -382,42 +382,74 @@ Section Gate.
 
   Notation ideal_sigs := (ideal_sigs sig_ok).
 
-  Definition sslib_keys (ks : list (str * json)) : Prop :=
-    forall kid k, In (kid, k) ks -> check_public_key k = Ok KSslib.
+  (** the verdict of a signature check on another message: same key token, same signature value *)
+  Lemma sslib_verify_other_msg : forall sig key m,
+    sslib_verify sig_ok sig key m = Ok true ->
+    exists tok sval, sig_ok tok m sval = true /\
+                     forall m', sslib_verify sig_ok sig key m' = Ok (sig_ok tok m' sval).
+  Proof.
+    intros sig key m H. unfold sslib_verify in *.
+    destruct (jstr_of (jget S_keyid sig)) as [skid|]; [|discriminate H].
+    destruct (jstr_of (jget S_keyid key)) as [kid|]; [|discriminate H].
+    destruct (jstr_of (jget S_sig sig)) as [sval|]; [|discriminate H].
+    destruct (negb (eqs skid kid)); [discriminate H|].
+    destruct (negb (hex_even sval)); [discriminate H|].
+    destruct (jget S_keyval key) as [kv|]; [|discriminate H].
+    destruct (jstr_of (jget S_public kv)) as [pub|]; [|discriminate H].
+    injection H as Hv. exists pub, sval. split; [exact Hv|]. intro m'. reflexivity.
+  Qed.
+
+  Lemma gpg_verify_other_msg : forall sig key m,
+    gpg_verify sig_ok now_s sig key m = Ok true ->
+    exists tok sval, sig_ok tok m sval = true /\
+                     forall m', gpg_verify sig_ok now_s sig key m' = Ok (sig_ok tok m' sval).
+  Proof.
+    intros sig key m H. unfold gpg_verify in *.
+    destruct (jstr_of (jget S_keyid sig)) as [skid|]; [|discriminate H].
+    destruct (jstr_of (jget S_keyid key)) as [mkid|]; [|discriminate H].
+    destruct (jstr_of (jget S_signature sig)) as [sval|]; [|discriminate H].
+    match type of H with context [sig_ok (fst ?x) _ _] => set (sel := x) in * end.
+    exists (fst sel), sval.
+    destruct (jget S_creation_time (snd sel)) as [[| |c| | | |]|];
+      try (injection H as Hv; split; [exact Hv|intro m'; reflexivity]).
+    destruct (jget S_validity_period (snd sel)) as [[| |v| | | |]|];
+      try (injection H as Hv; split; [exact Hv|intro m'; reflexivity]).
+    match type of H with (if ?c then _ else _) = _ => destruct c end; [discriminate H|].
+    injection H as Hv. split; [exact Hv|intro m'; reflexivity].
+  Qed.
 
   Lemma vsig_metablock_edit : forall sigs p p' key,
-    ideal_sigs -> check_public_key key = Ok KSslib ->
+    ideal_sigs ->
     wf_json (payload_asdict p) = true -> wf_json (payload_asdict p') = true ->
     norm (payload_asdict p') <> norm (payload_asdict p) ->
     vsig (Metablock sigs p) key = Ok tt ->
     exists e, vsig (Metablock sigs p') key = Err e.
   Proof.
-    intros sigs p p' key Hideal Hshape Wp Wp' Hne H.
-    cbn [verify_signature] in *. rewrite Hshape in *. cbn [bind] in *.
+    intros sigs p p' key Hideal Wp Wp' Hne H.
+    cbn [verify_signature] in *.
+    destruct (check_public_key key) as [shape|e0]; cbn [bind] in *; [|discriminate H].
     destruct (jstr_of (jget S_keyid key)) as [kid|]; [|discriminate H].
     match type of H with context [find ?f sigs] => destruct (find f sigs) as [sig|] end.
     2:{ match goal with |- exists e, (if ?c then _ else _) = _ => destruct c end; eexists; reflexivity. }
     bind_inv H msg Hmsg. unfold signed_bytes_mb in *.
     destruct (signable_bytes (payload_asdict p')) as [msg'|e'] eqn:Hmsg'; cbn [bind];
       [|eexists; reflexivity].
-    destruct (has S_signature sig && has S_other_headers sig); [eexists; reflexivity|].
-    destruct (has S_sig sig); [|eexists; reflexivity].
-    bind_inv H ok Hok. destruct ok; [|discriminate H].
-    destruct (sslib_verify sig_ok sig key msg') as [[]|e''] eqn:Hok'; cbn [bind];
-      try (eexists; reflexivity).
-    exfalso.
-    destruct (sslib_verify_true _ _ _ Hok) as [k1 [pub [sval [_ [_ [Hs Hv]]]]]].
-    unfold sslib_verify in Hok, Hok'.
-    destruct (jstr_of (jget S_keyid sig)) as [skid|]; [|discriminate Hok].
-    destruct (jstr_of (jget S_keyid key)) as [kid'|]; [|discriminate Hok].
-    rewrite Hs in *.
-    destruct (negb (eqs skid kid')); [discriminate Hok|].
-    destruct (negb (hex_even sval)); [discriminate Hok|].
-    destruct (jget S_keyval key) as [kv|]; [|discriminate Hok].
-    destruct (jstr_of (jget S_public kv)) as [pub'|]; [|discriminate Hok].
-    inversion Hok as [Hv1]. inversion Hok' as [Hv2].
-    pose proof (Hideal _ _ _ _ Hv1 Hv2) as Em. subst msg'.
-    apply Hne. exact (signable_bytes_inj _ _ _ Wp' Wp Hmsg' Hmsg).
+    assert (Hdiff : msg' <> msg).
+    { intro E. subst msg'. apply Hne. exact (signable_bytes_inj _ _ _ Wp' Wp Hmsg' Hmsg). }
+    destruct (has S_signature sig && has S_other_headers sig).
+    - destruct shape; [|discriminate H].
+      bind_inv H ok Hok. destruct ok; [|discriminate H].
+      destruct (gpg_verify_other_msg _ _ _ Hok) as [tok [sval [Hv Hother]]].
+      rewrite (Hother msg'). cbn [bind].
+      destruct (sig_ok tok msg' sval) eqn:Hv'; [|eexists; reflexivity].
+      exfalso. apply Hdiff. exact (Hideal _ _ _ _ Hv' Hv).
+    - destruct shape; [discriminate H|].
+      destruct (has S_sig sig); [|eexists; reflexivity].
+      bind_inv H ok Hok. destruct ok; [|discriminate H].
+      destruct (sslib_verify_other_msg _ _ _ Hok) as [tok [sval [Hv Hother]]].
+      rewrite (Hother msg'). cbn [bind].
+      destruct (sig_ok tok msg' sval) eqn:Hv'; [|eexists; reflexivity].
+      exfalso. apply Hdiff. exact (Hideal _ _ _ _ Hv' Hv).
   Qed.
 
   (** at most one signature per key id in a signature list *)
@@ -485,20 +517,19 @@ Section Gate.
     ideal_sigs ->
     a_md a = Metablock sigs p ->
     vfy d a = (Ok lk, tr) ->
-    (forall ks, a_keys a = JDict ks -> sslib_keys ks) ->
     wf_json (payload_asdict p) = true -> wf_json (payload_asdict p') = true ->
     norm (payload_asdict p') <> norm (payload_asdict p) ->
     forall d' params name, exists e,
       vfy d' (mkArgs (Metablock sigs p') (a_keys a) params name) = (Err e, []).
   Proof.
-    intros sigs p p' d a lk tr Hideal Hmd Hacc Hss Wp Wp' Hne d' params name.
+    intros sigs p p' d a lk tr Hideal Hmd Hacc Wp Wp' Hne d' params name.
     destruct (accepted_gate _ _ _ _ Hacc) as [l0 Hg].
     unfold gate in Hg. bind_inv Hg u Hu.
     destruct (vms_Ok_inv _ _ _ Hu) as [ks [Hk [Hnil [Hcpk Hall]]]].
     destruct ks as [|[kid k] ks]; [congruence|].
     assert (Hin : In (kid, k) ((kid, k) :: ks)) by (left; reflexivity).
     pose proof (Hall kid k Hin) as Hv. rewrite Hmd in Hv.
-    destruct (vsig_metablock_edit sigs p p' k Hideal (Hss _ Hk kid k Hin) Wp Wp' Hne Hv) as [e He].
+    destruct (vsig_metablock_edit sigs p p' k Hideal Wp Wp' Hne Hv) as [e He].
     destruct (key_without_valid_sig_rejected
                 (mkArgs (Metablock sigs p') (a_keys a) params name) _ kid k e Hcpk Hin He) as [e' He'].
     exists e'. apply He'.
